@@ -294,7 +294,13 @@ func (p *Prog) wfTerm(v *Term, t types.Type, withAlloc bool) *Term {
 		// A-arch: no slice is longer than 2^56 elements (the amd64 address space is 2^47 bytes)
 		return And(Le(IntLit(0), r.sLen(v)), Le(r.sLen(v), r.sCap(v)), Le(IntLit(0), r.sOff(v)),
 			Le(r.sCap(v), IntPow2(56)), Implies(r.sNil(v), Eq(r.sLen(v), IntLit(0))))
-	case *types.Pointer, *types.Map, *types.Chan, *types.Signature, *types.Interface:
+	case *types.Interface:
+		// interface values: references, boxed values, or negative constants for boxed nil pointers
+		if withAlloc {
+			return Lt(v, V("$alloc", "Int"))
+		}
+		return nil
+	case *types.Pointer, *types.Map, *types.Chan, *types.Signature:
 		if withAlloc {
 			return And(Le(IntLit(0), v), Lt(v, V("$alloc", "Int")))
 		}
@@ -430,6 +436,25 @@ func (l *Lowerer) guardedAccess(pl *place) {
 			}
 		}
 	}
+}
+
+// linkIdx gives the solvers the ground instance idx(s,i) == s.arr[s.off+i] for a slice read in the code, so
+// that quantified facts stated with the idx trigger apply to it. Only for slices of non-integer elements
+// (byte and integer slices are handled without quantifiers).
+func (l *Lowerer) linkIdx(s, i *Term, elem types.Type) {
+	if l.spec || l.cur == nil || s.Op == "mk_"+s.Sort {
+		return
+	}
+	if b, ok := types.Unalias(elem).Underlying().(*types.Basic); ok && b.Info()&(types.IsInteger|types.IsBoolean|types.IsFloat) != 0 {
+		return
+	}
+	r := l.p.reg
+	name := "idx_" + s.Sort
+	es := r.sliceElem(s.Sort)
+	r.Fun(name, []string{s.Sort, "Int"}, es)
+	r.Axiom(name, fmt.Sprintf("(forall ((s %s) (i Int)) (! (= (%s s i) (select (arr_%s s) (+ (off_%s s) i))) :pattern ((%s s i))))",
+		s.Sort, name, s.Sort, s.Sort, name))
+	l.assume(Eq(App(name, es, s, i), Select(r.sArr(s), Add(r.sOff(s), i))))
 }
 
 func hasBound(t *Term) bool {
@@ -1273,7 +1298,17 @@ func (l *Lowerer) convertTo(v *Term, from, to types.Type) *Term {
 // box converts a concrete value to an interface value.
 func (l *Lowerer) box(v *Term, from types.Type) *Term {
 	if isRefLike(from) {
-		// pointers, maps, funcs, chans: the reference itself; dynamic type recorded
+		// pointers, maps, funcs, chans: the reference itself; dynamic type recorded. A nil pointer stored in an
+		// interface is a non-nil interface value: it is represented by a negative constant per type.
+		if _, isPtr := types.Unalias(from).Underlying().(*types.Pointer); isPtr && v.Op != "lit" {
+			id := l.p.typeID(from)
+			nb := App("-", "Int", id)
+			if !l.spec {
+				l.assume(Implies(Not(Eq(v, IntLit(0))), Eq(App("dyntype", "Int", v), id)))
+				l.assume(Eq(App("dyntype", "Int", nb), id))
+			}
+			return Ite(Eq(v, IntLit(0)), nb, v)
+		}
 		if !l.spec {
 			l.assume(Implies(Not(Eq(v, IntLit(0))), Eq(App("dyntype", "Int", v), l.p.typeID(from))))
 		}
@@ -1293,6 +1328,9 @@ func (l *Lowerer) box(v *Term, from types.Type) *Term {
 
 func (l *Lowerer) unbox(v *Term, to types.Type) *Term {
 	if isRefLike(to) {
+		if _, isPtr := types.Unalias(to).Underlying().(*types.Pointer); isPtr {
+			return Ite(Lt(v, IntLit(0)), IntLit(0), v) // a boxed nil pointer
+		}
 		return v
 	}
 	s := l.p.sortOf(to)
@@ -1675,6 +1713,7 @@ func (l *Lowerer) trIndex(x *ast.IndexExpr) (*Term, types.Type) {
 		i, _ := l.tr(x.Index)
 		l.safety("index", l.exprText(x), x, And(Le(IntLit(0), i), Lt(i, l.p.reg.sLen(b))))
 		v := l.p.reg.sIndex(b, i)
+		l.linkIdx(b, i, u.Elem())
 		l.wfLoad(v, u.Elem())
 		return v, u.Elem()
 	case *types.Array:
